@@ -37,4 +37,4 @@ def run(ctx):
         rule="theorems of coq/Props/C03.v (unbounded: every configuration, every token stream); correspondence and "
              "implementation oracle on: every .vcl file of the repository x default + every single-option flip (exhaustive), "
              "focus programs x the same flips, grammar-generated programs (plain, and decorated with comments at the "
-             "documented placeholders) x default + sampled random configurations; string literals rewritten with every kind of inner whitespace (gen/fmt_literals relit) and the exhaustive literal matrix (24 string positions x 20 whitespace features x quoted/long/delimited); distinct = distinct (source, configuration); per-dimension counts in coverage.dimensions")
+             "documented placeholders) x default + sampled random configurations; string literals rewritten with every kind of inner whitespace (gen/fmt_literals relit) and the exhaustive literal matrix (24 string positions x 20 whitespace features x quoted/long/delimited); SCALE (gen/fmt_scale: one token / output line of 4 KiB, 64 KiB - 1, 64 KiB, 64 KiB + 1, 200 KiB as quoted / long / multi-line string, comment, identifier; conditions, concatenations and argument lists with 300 operands; 300 statements, else-if branches, cases, properties, entries, declarations; nesting 60 - always next to runs of empty lines); COMMENT TEXT (gen/decorate hostile alphabet, 22 line + 22 block classes: multi-line blocks with / without stars, indented, trailing blanks, empty lines; line comments containing or ending in /* */ // # \\\\; code; empty; > 4 KiB; tabs; multi-byte - every placeholder x one class of each family, every condition / branch placeholder of a compound-condition template x every class, own line and line of the previous token); distinct = distinct (source, configuration); per-dimension counts in coverage.dimensions")
